@@ -164,6 +164,17 @@ func seenHas(n NodeObs, k key) bool {
 	return false
 }
 
+// withdrew reports whether agent m ever sent a withdrawal in this case (its
+// CIDR routes may then legitimately be absent elsewhere).
+func (c *Case) withdrew(m int) bool {
+	for _, op := range c.Ops {
+		if op.K == "withdraw" && op.A == m {
+			return true
+		}
+	}
+	return false
+}
+
 // baseMetric returns the metric the origin configured for a route (presence
 // routes are announced with 0).
 func (c *Case) baseMetric(origin, kind, id int) (int, bool) {
@@ -221,17 +232,18 @@ func MonitorC11(c *Case, o *Obs) []Finding {
 		if st.Result == 1 {
 			if s1, dup := firstProc[id]; dup {
 				// was the key absent from the node's seen cache in between?
+				// only time passing (TTL) or an eviction may remove the entry: find the step after which it was gone
 				expired := false
 				for j := s1; j < si; j++ {
 					if sn := o.Snap(j); sn != nil && !seenHas(sn[st.DelTo], k) {
-						expired = true
+						expired = c.Ops[j].K == "advance" || c.Ops[j].K == "forget"
 						break
 					}
 				}
 				if expired {
 					out = append(out, Finding{"reprocessed-after-seen-expiry", fmt.Sprintf("node %d processed (%d,%d) at step %d and again at step %d after the seen-cache entry had expired; %d frame(s) forwarded again", st.DelTo, k.origin, k.seq, s1, si, len(sends))})
 				} else {
-					out = append(out, Finding{"processed-twice", fmt.Sprintf("node %d processed (%d,%d) at steps %d and %d with the seen-cache entry in place", st.DelTo, k.origin, k.seq, s1, si)})
+					out = append(out, Finding{"processed-twice", fmt.Sprintf("node %d processed (%d,%d) at steps %d and %d although its seen-cache entry had not expired (it was still there, or vanished without time passing); %d frame(s) forwarded again", st.DelTo, k.origin, k.seq, s1, si, len(sends))})
 				}
 			} else {
 				firstProc[id] = si
@@ -410,6 +422,9 @@ func MonitorC12(c *Case, o *Obs) []Finding {
 		for _, op := range c.Ops {
 			if op.K == "addlocal" && op.A == m && !seenKey[[2]int{op.Kind, op.ID}] {
 				seenKey[[2]int{op.Kind, op.ID}] = true
+				if op.Kind == KCidr && c.withdrew(m) {
+					continue
+				}
 				want = append(want, RouteObs{Kind: op.Kind, ID: op.ID})
 			}
 		}
@@ -527,6 +542,9 @@ func MonitorC14(c *Case, o *Obs) []Finding {
 				p := c.Ops[i2]
 				if p.K == "addlocal" && p.A == org && o.Steps[i2].Applied && !sk[[2]int{p.Kind, p.ID}] {
 					sk[[2]int{p.Kind, p.ID}] = true
+					if p.Kind == KCidr && c.withdrew(org) {
+						continue
+					}
 					want = append(want, RouteObs{Kind: p.Kind, ID: p.ID})
 				}
 			}
@@ -655,7 +673,7 @@ func monitorC14Accept(c *Case, o *Obs) []Finding {
 		perStepSends[m.Step] = append(perStepSends[m.Step], m)
 	}
 	for si, st := range o.Steps {
-		if c.Ops[si].K != "deliver" || !st.Applied || st.DelOrigin >= c.N {
+		if c.Ops[si].K != "deliver" || !st.Applied || st.DelOrigin >= c.N || st.DelWithdraw {
 			continue
 		}
 		n := st.DelTo
